@@ -106,6 +106,558 @@ def max_spiral_loops_default():
     return vals[0]
 
 
+# ----------------------------------------------------------------------------
+# Decision structures (guards) -> coq/gen/Guards.v
+#
+# The bodies of Simulation._check_period_consistency / calculate_add /
+# calculate_divide and CorePopulation.__call__ are walked statement by statement.
+# Everything that is not one of the shapes listed below raises TranslationError.
+# Local names (the variable, the period, the message, the chosen period, the
+# denominator, the Calculate tuple) are read from the code, so renaming one is
+# harmless; attribute names, operators, constants, statement order and statement
+# kinds are translated (or pinned), so changing one changes coq/gen/Guards.v (or
+# fails closed).
+# ----------------------------------------------------------------------------
+
+NAMED_PERIOD = {"this_year": "NThisYear", "first_month": "NFirstMonth", "first_day": "NFirstDay",
+                "first_week": "NFirstWeek", "first_weekday": "NFirstWeekday"}
+SIZE_FN = {"size_in_years": "SInYears", "size_in_months": "SInMonths", "size_in_days": "SInDays",
+           "size_in_weeks": "SInWeeks", "size_in_weekdays": "SInWeekdays"}
+ZCMP = {ast.Gt: "Z.gtb {} {}", ast.Lt: "Z.ltb {} {}", ast.GtE: "Z.geb {} {}", ast.LtE: "Z.leb {} {}",
+        ast.Eq: "Z.eqb {} {}", ast.NotEq: "negb (Z.eqb {} {})"}
+
+
+def _src(node):
+    try:
+        return ast.unparse(node)
+    except Exception:  # noqa: BLE001
+        return ast.dump(node)
+
+
+def _where(fn, node):
+    return f"{fn}: line {getattr(node, 'lineno', '?')}"
+
+
+def _is(node, source, mode="eval"):
+    """node is syntactically the Python text [source]"""
+    want = ast.parse(source, mode=mode).body
+    if mode == "exec":
+        want = want[0]
+    return ast.dump(node) == ast.dump(want)
+
+
+def _require_import(tree, rel, module, name, level=0):
+    for n in tree.body:
+        if isinstance(n, ast.ImportFrom) and n.module == module and n.level == level:
+            for a in n.names:
+                if a.name == name and a.asname is None:
+                    return
+    raise TranslationError(f"{rel}: 'from {'.' * level}{module} import {name}' not found at module level")
+
+
+def _no_rebinding(tree, rel, names):
+    """the module-level names the guards rely on are bound by imports only"""
+    for n in tree.body:
+        bound = []
+        if isinstance(n, (ast.FunctionDef, ast.ClassDef, ast.AsyncFunctionDef)):
+            bound = [n.name]
+        elif isinstance(n, ast.Assign):
+            bound = [t.id for t in n.targets if isinstance(t, ast.Name)]
+        elif isinstance(n, (ast.AnnAssign, ast.AugAssign)) and isinstance(n.target, ast.Name):
+            bound = [n.target.id]
+        elif isinstance(n, ast.Import):
+            bound = [(a.asname or a.name).split(".")[0] for a in n.names]
+        for b in bound:
+            if b in names:
+                raise TranslationError(f"{rel}: module-level name '{b}' is re-bound at line {n.lineno}")
+
+
+def _body(fn):
+    """statements of a function without the leading docstring"""
+    b = list(fn.body)
+    if (b and isinstance(b[0], ast.Expr) and isinstance(b[0].value, ast.Constant)
+            and isinstance(b[0].value.value, str)):
+        b = b[1:]
+    return b
+
+
+def _params(fn, n, what):
+    a = fn.args
+    if (a.posonlyargs or a.vararg or a.kwonlyargs or a.kwarg or len(a.args) != n
+            or fn.decorator_list):
+        raise TranslationError(f"{what}: signature changed ({_src(a)})")
+    return [x.arg for x in a.args]
+
+
+class _Env:
+    """names of the locals of the function being translated + the abstract inputs a
+    condition may mention"""
+
+    def __init__(self, fn, var=None, period=None, allowed=()):
+        self.fn, self.var, self.period, self.allowed = fn, var, period, set(allowed)
+        self.used = set()
+
+    def sym(self, s, node):
+        if s not in self.allowed:
+            raise TranslationError(f"{_where(self.fn, node)}: '{_src(node)}' is not expected in this decision")
+        self.used.add(s)
+        return s
+
+
+def _date_unit(node):
+    """periods.DateUnit.X -> Coq constructor, or None"""
+    if (isinstance(node, ast.Attribute) and node.attr in UNIT and _is(node.value, "periods.DateUnit")):
+        return UNIT[node.attr]
+    return None
+
+
+def _unit_expr(node, env):
+    """an expression of type DateUnit, or None"""
+    u = _date_unit(node)
+    if u is not None:
+        return u
+    if isinstance(node, ast.Attribute) and isinstance(node.value, ast.Name):
+        if env.var is not None and node.value.id == env.var and node.attr == "definition_period":
+            return env.sym("def_unit", node)
+        if env.period is not None and node.value.id == env.period and node.attr == "unit":
+            return env.sym("req_unit", node)
+    return None
+
+
+def _weight_expr(node, env):
+    """periods.unit_weight(<unit expr>), or None"""
+    if (isinstance(node, ast.Call) and _is(node.func, "periods.unit_weight")
+            and len(node.args) == 1 and not node.keywords):
+        u = _unit_expr(node.args[0], env)
+        if u is None:
+            raise TranslationError(f"{_where(env.fn, node)}: unit_weight of '{_src(node.args[0])}'")
+        return f"(unit_weight {u})"
+    return None
+
+
+def _int_expr(node, env):
+    """period.size or an integer literal, or None"""
+    if (isinstance(node, ast.Attribute) and isinstance(node.value, ast.Name)
+            and env.period is not None and node.value.id == env.period and node.attr == "size"):
+        return env.sym("size", node)
+    if isinstance(node, ast.Constant) and type(node.value) is int:
+        return f"({node.value})%Z"
+    if (isinstance(node, ast.UnaryOp) and isinstance(node.op, ast.USub)
+            and isinstance(node.operand, ast.Constant) and type(node.operand.value) is int):
+        return f"({-node.operand.value})%Z"
+    return None
+
+
+def _unit_list(node, env):
+    """periods.DateUnit.isoformat / .isocalendar, sums of them, tuples of units -> Coq list, or None"""
+    if isinstance(node, ast.Attribute) and node.attr in ("isoformat", "isocalendar") \
+            and _is(node.value, "periods.DateUnit"):
+        return f"units_{node.attr}"
+    if isinstance(node, ast.BinOp) and isinstance(node.op, ast.Add):
+        a, b = _unit_list(node.left, env), _unit_list(node.right, env)
+        if a is not None and b is not None:
+            return f"({a} ++ {b})"
+        return None
+    if isinstance(node, ast.Tuple):
+        us = [_date_unit(e) for e in node.elts]
+        if all(u is not None for u in us):
+            return "[" + "; ".join(us) + "]"
+    return None
+
+
+def _cond(node, env):
+    """a Python condition over the abstract inputs -> Coq term of type bool"""
+    if isinstance(node, ast.BoolOp):
+        op = "andb" if isinstance(node.op, ast.And) else "orb"
+        parts = [_cond(v, env) for v in node.values]
+        out = parts[-1]
+        for p in reversed(parts[:-1]):
+            out = f"({op} {p} {out})"
+        return out
+    if isinstance(node, ast.UnaryOp) and isinstance(node.op, ast.Not):
+        return f"(negb {_cond(node.operand, env)})"
+    if isinstance(node, ast.Compare) and len(node.ops) == 1:
+        op, l, r = node.ops[0], node.left, node.comparators[0]
+        # DateUnit == / != DateUnit
+        if isinstance(op, (ast.Eq, ast.NotEq)):
+            a, b = _unit_expr(l, env), _unit_expr(r, env)
+            if a is not None and b is not None:
+                t = f"(unit_eqb {a} {b})"
+                return t if isinstance(op, ast.Eq) else f"(negb {t})"
+        # DateUnit in / not in (tuple of units)
+        if isinstance(op, (ast.In, ast.NotIn)):
+            a, lst = _unit_expr(l, env), _unit_list(r, env)
+            if a is not None and lst is not None:
+                t = f"(existsb (unit_eqb {a}) {lst})"
+                return t if isinstance(op, ast.In) else f"(negb {t})"
+        if type(op) in ZCMP:
+            # unit_weight(..) <cmp> unit_weight(..)
+            a, b = _weight_expr(l, env), _weight_expr(r, env)
+            if a is not None and b is not None:
+                return "(" + ZCMP[type(op)].format(a, b) + ")"
+            # period.size <cmp> literal
+            a, b = _int_expr(l, env), _int_expr(r, env)
+            if a is not None and b is not None and "size" in (a, b):
+                return "(" + ZCMP[type(op)].format(a, b) + ")"
+    raise TranslationError(f"{_where(env.fn, node)}: condition '{_src(node)}' is not of a known form")
+
+
+def _message(node, env):
+    """a string literal or an f-string over the known locals (cannot raise, no effect)"""
+    if isinstance(node, ast.Constant) and isinstance(node.value, str):
+        return True
+    if isinstance(node, ast.JoinedStr):
+        for v in node.values:
+            if isinstance(v, ast.Constant) and isinstance(v.value, str):
+                continue
+            ok = False
+            if isinstance(v, ast.FormattedValue) and v.conversion == -1 and v.format_spec is None:
+                e = v.value
+                if isinstance(e, ast.Name) and e.id in (env.period,):
+                    ok = True
+                if (isinstance(e, ast.Attribute) and isinstance(e.value, ast.Name)
+                        and e.value.id == env.var and e.attr in ("name", "definition_period")):
+                    ok = True
+            if not ok:
+                raise TranslationError(f"{_where(env.fn, v)}: message part '{_src(v)}' is not expected")
+        return True
+    return False
+
+
+def _raises_value_error(stmts, env):
+    """[msg = <message>;]* raise ValueError(<msg or message>)"""
+    if not stmts or not isinstance(stmts[-1], ast.Raise):
+        return False
+    msgs = set()
+    for s in stmts[:-1]:
+        if (isinstance(s, ast.Assign) and len(s.targets) == 1 and isinstance(s.targets[0], ast.Name)
+                and s.targets[0].id not in (env.var, env.period) and _message(s.value, env)):
+            msgs.add(s.targets[0].id)
+        else:
+            raise TranslationError(f"{_where(env.fn, s)}: statement '{_src(s).splitlines()[0]}' before a raise")
+    r = stmts[-1]
+    e = r.exc
+    if (r.cause is None and isinstance(e, ast.Call) and isinstance(e.func, ast.Name) and not e.keywords
+            and len(e.args) == 1
+            and ((isinstance(e.args[0], ast.Name) and e.args[0].id in msgs) or _message(e.args[0], env))):
+        if e.func.id != "ValueError":
+            raise TranslationError(f"{_where(env.fn, r)}: raises {e.func.id}, expected ValueError")
+        return True
+    raise TranslationError(f"{_where(env.fn, r)}: raise statement '{_src(r).splitlines()[0]}' is not of a known form")
+
+
+def _guard_chain(stmts, env, allow_accept=False):
+    """leading run of `if <cond>: raise ValueError(..)` (and, when allow_accept,
+    `if <cond>: return`) -> ([(cond, raises?)], remaining statements)"""
+    out = []
+    i = 0
+    while i < len(stmts):
+        s = stmts[i]
+        if not isinstance(s, ast.If):
+            break
+        is_ret = (len(s.body) == 1 and isinstance(s.body[0], ast.Return)
+                  and (s.body[0].value is None or _is(s.body[0].value, "None")))
+        if not is_ret and not (s.body and isinstance(s.body[-1], ast.Raise)):
+            break                      # not a guard: the caller decides what it is
+        if s.orelse:
+            raise TranslationError(f"{_where(env.fn, s)}: a guard with an else branch")
+        if is_ret:
+            if not allow_accept:
+                raise TranslationError(f"{_where(env.fn, s)}: early return among the guards")
+            out.append((_cond(s.test, env), False))
+        else:
+            _raises_value_error(s.body, env)
+            out.append((_cond(s.test, env), True))
+        i += 1
+    return out, stmts[i:]
+
+
+def _render_chain(chain, final="false"):
+    lines = []
+    for k, (c, raises) in enumerate(chain):
+        lines.append(f"  {'if' if k == 0 else 'else if'} {c} then {'true' if raises else 'false'}")
+    lines.append(f"  else {final}." if chain else f"  {final}.")
+    return "\n".join(lines)
+
+
+def _choice_chain(node, env, value_of, what):
+    """if/elif/else where every branch is `<target> = <value>` -> (target, Coq term)"""
+    target = []
+
+    def branch(stmts, at):
+        if (len(stmts) == 1 and isinstance(stmts[0], ast.Assign) and len(stmts[0].targets) == 1
+                and isinstance(stmts[0].targets[0], ast.Name)):
+            target.append(stmts[0].targets[0].id)
+            return value_of(stmts[0].value)
+        raise TranslationError(f"{_where(env.fn, at)}: {what}: branch is not a single assignment")
+
+    def go(n, depth):
+        if not isinstance(n, ast.If):
+            raise TranslationError(f"{_where(env.fn, n)}: {what}: expected an if/elif/else chain")
+        c = _cond(n.test, env)
+        then = branch(n.body, n)
+        if len(n.orelse) == 1 and isinstance(n.orelse[0], ast.If):
+            rest = go(n.orelse[0], depth + 1)
+        elif n.orelse:
+            rest = branch(n.orelse, n)
+        else:
+            raise TranslationError(f"{_where(env.fn, n)}: {what}: chain without a final else")
+        return f"if {c} then {then}\n  else {rest}"
+
+    term = go(node, 0)
+    if len(set(target)) != 1:
+        raise TranslationError(f"{_where(env.fn, node)}: {what}: branches assign different names {sorted(set(target))}")
+    return target[0], term
+
+
+SIM = "openfisca_core/simulations/simulation.py"
+POP = "openfisca_core/populations/_core_population.py"
+
+
+def _sim_tree():
+    tree = _parse(SIM)
+    _require_import(tree, SIM, "openfisca_core", "periods")
+    _require_import(tree, SIM, "openfisca_core", "errors")
+    _no_rebinding(tree, SIM, {"periods", "errors", "ValueError", "isinstance", "sum"})
+    return tree
+
+
+def _lookup_prelude(fn, what):
+    """the head shared by calculate_add / calculate_divide: variable lookup, not-found
+    error, period normalisation.  Returns (self, name parameter, environment, rest)."""
+    me, name, per = _params(fn, 3, what)
+    stmts = _body(fn)
+    if (stmts and isinstance(stmts[0], ast.AnnAssign) and stmts[0].value is None
+            and isinstance(stmts[0].target, ast.Name)):
+        stmts = stmts[1:]              # bare local annotation: no run-time effect
+    if len(stmts) < 3:
+        raise TranslationError(f"{what}: body too short")
+    s0 = stmts[0]
+    if not (isinstance(s0, ast.Assign) and len(s0.targets) == 1 and isinstance(s0.targets[0], ast.Name)):
+        raise TranslationError(f"{_where(what, s0)}: expected the variable lookup, got '{_src(s0).splitlines()[0]}'")
+    var = s0.targets[0].id
+    if var in (me, name, per):
+        raise TranslationError(f"{_where(what, s0)}: the variable lookup overwrites a parameter")
+    expect = [
+        f"{var} = {me}.tax_benefit_system.get_variable({name}, check_existence=True)",
+        f"if {var} is None:\n    raise errors.VariableNotFoundError({name}, {me}.tax_benefit_system)",
+        f"if {per} is not None and not isinstance({per}, periods.Period):\n    {per} = periods.period({per})",
+    ]
+    for s, e in zip(stmts[:3], expect):
+        if not _is(s, e, mode="exec"):
+            raise TranslationError(f"{_where(what, s)}: expected '{e.splitlines()[0]} ...', got '{_src(s).splitlines()[0]}'")
+    return me, name, var, per, stmts[3:]
+
+
+def guard_check_consistency():
+    what = "_check_period_consistency"
+    fn = _func(_sim_tree(), what, cls="Simulation")
+    _me, per, var = _params(fn, 3, what)
+    env = _Env(what, var=var, period=per, allowed=("def_unit", "req_unit", "size"))
+    chain, rest = _guard_chain(_body(fn), env, allow_accept=True)
+    if rest:
+        raise TranslationError(f"{_where(what, rest[0])}: statement '{_src(rest[0]).splitlines()[0]}' is not a guard")
+    if not chain:
+        raise TranslationError(f"{what}: no guard found")
+    return ("(* Simulation._check_period_consistency: true = raises ValueError *)\n"
+            "Definition gen_check_consistency (def_unit req_unit : unit_t) (size : Z) : bool :=\n"
+            + _render_chain(chain))
+
+
+def guard_add():
+    what = "calculate_add"
+    fn = _func(_sim_tree(), what, cls="Simulation")
+    me, name, var, per, stmts = _lookup_prelude(fn, what)
+    env = _Env(what, var=var, period=per, allowed=("def_unit", "req_unit"))
+    chain, rest = _guard_chain(stmts, env)
+    ok = False
+    if len(rest) == 1 and isinstance(rest[0], ast.Return) and rest[0].value is not None:
+        v = rest[0].value
+        gens = getattr(v.args[0], "generators", None) if isinstance(v, ast.Call) and len(v.args) == 1 else None
+        if gens and len(gens) == 1 and isinstance(gens[0].target, ast.Name):
+            sub = gens[0].target.id
+            ok = sub not in (me, name, var, per) and _is(
+                v, f"sum({me}.calculate({name}, {sub}) for {sub} in {per}.get_subperiods({var}.definition_period))")
+    if not ok:
+        at = rest[0] if rest else fn
+        raise TranslationError(f"{_where(what, at)}: after the guards, expected only "
+                               f"'return sum(self.calculate(name, sub) for sub in period.get_subperiods(variable.definition_period))'")
+    if not chain:
+        raise TranslationError(f"{what}: no guard found")
+    return ("(* Simulation.calculate_add, the tests before the sum: true = raises ValueError *)\n"
+            "Definition gen_add_guard (def_unit req_unit : unit_t) : bool :=\n"
+            + _render_chain(chain))
+
+
+def guard_divide():
+    what = "calculate_divide"
+    fn = _func(_sim_tree(), what, cls="Simulation")
+    me, name, var, per, stmts = _lookup_prelude(fn, what)
+    env = _Env(what, var=var, period=per, allowed=("def_unit", "req_unit", "size"))
+    chain, rest = _guard_chain(stmts, env)
+    if not chain:
+        raise TranslationError(f"{what}: no guard found")
+    if len(rest) != 3:
+        at = rest[0] if rest else fn
+        raise TranslationError(f"{_where(what, at)}: after the guards, expected the choice of the calculation "
+                               f"period, the choice of the denominator and the return ({len(rest)} statements found)")
+
+    def named(v):
+        if (isinstance(v, ast.Attribute) and isinstance(v.value, ast.Name) and v.value.id == per
+                and v.attr in NAMED_PERIOD):
+            return NAMED_PERIOD[v.attr]
+        raise TranslationError(f"{_where(what, v)}: calculation period '{_src(v)}' is not period.<this_year|first_*>")
+
+    env1 = _Env(what, var=var, period=per, allowed=("def_unit",))
+    cp, choice = _choice_chain(rest[0], env1, named, "choice of the calculation period")
+    if cp in (me, name, var, per):
+        raise TranslationError(f"{what}: the calculation period overwrites '{cp}'")
+
+    def sizefn(v):
+        if (isinstance(v, ast.Attribute) and isinstance(v.value, ast.Name) and v.value.id == cp
+                and v.attr in SIZE_FN):
+            return SIZE_FN[v.attr]
+        raise TranslationError(f"{_where(what, v)}: denominator '{_src(v)}' is not <calculation period>.size_in_<unit>s")
+
+    env2 = _Env(what, var=var, period=per, allowed=("req_unit",))
+    den, denom = _choice_chain(rest[1], env2, sizefn, "choice of the denominator")
+    if den in (me, name, var, per, cp):
+        raise TranslationError(f"{what}: the denominator overwrites '{den}'")
+    if not _is(rest[2], f"return {me}.calculate({name}, {cp}) / {den}", mode="exec"):
+        raise TranslationError(f"{_where(what, rest[2])}: expected 'return self.calculate(name, <calculation period>) "
+                               f"/ <denominator>', got '{_src(rest[2]).splitlines()[0]}'")
+    return "\n".join([
+        "(* Simulation.calculate_divide, the tests before the division: true = raises ValueError *)",
+        "Definition gen_divide_guard (def_unit req_unit : unit_t) (size : Z) : bool :=",
+        _render_chain(chain),
+        "",
+        "(* Simulation.calculate_divide: calculation_period = period.<...>, by definition unit *)",
+        "Definition gen_divide_period_choice (def_unit : unit_t) : named_period :=",
+        f"  {choice}.",
+        "",
+        "(* Simulation.calculate_divide: denominator = calculation_period.<...>, by request unit *)",
+        "Definition gen_divide_denominator_choice (req_unit : unit_t) : size_fn :=",
+        f"  {denom}.",
+    ])
+
+
+def guard_dispatch():
+    what = "CorePopulation.__call__"
+    tree = _parse(POP)
+    _require_import(tree, POP, "collections.abc", "Sequence")
+    _require_import(tree, POP, "openfisca_core", "periods")
+    found = [n for n in tree.body if isinstance(n, ast.ImportFrom) and n.level == 1 and n.module is None
+             and any(a.name == "types" and a.asname == "t" for a in n.names)]
+    if not found:
+        raise TranslationError(f"{POP}: 'from . import types as t' not found")
+    for e in ("IncompatibleOptionsError", "InvalidOptionError"):
+        _require_import(tree, POP, "_errors", e, level=1)
+    _no_rebinding(tree, POP, {"Sequence", "periods", "t", "isinstance",
+                              "IncompatibleOptionsError", "InvalidOptionError"})
+    fn = _func(tree, "__call__", cls="CorePopulation")
+    a = fn.args
+    if (a.posonlyargs or a.vararg or a.kwonlyargs or a.kwarg or len(a.args) != 4 or fn.decorator_list
+            or len(a.defaults) != 1 or not _is(a.defaults[0], "None")):
+        raise TranslationError(f"{what}: signature changed ({_src(a)})")
+    me, name, per, opts = [x.arg for x in a.args]
+    stmts = _body(fn)
+    if len(stmts) < 5:
+        raise TranslationError(f"{what}: body too short")
+    s1 = stmts[1]
+    if not (isinstance(s1, ast.Assign) and len(s1.targets) == 1 and isinstance(s1.targets[0], ast.Name)):
+        raise TranslationError(f"{_where(what, s1)}: expected '<calculate> = t.Calculate(...)'")
+    c = s1.targets[0].id
+    if c in (me, name, per, opts):
+        raise TranslationError(f"{_where(what, s1)}: the Calculate tuple overwrites a parameter")
+    expect = [
+        f"if {me}.simulation is None:\n    return None",
+        f"{c} = t.Calculate(variable={name}, period=periods.period({per}), option={opts})",
+        f"{me}.entity.check_variable_defined_for_entity({c}.variable)",
+        f"{me}.check_period_validity({c}.variable, {c}.period)",
+    ]
+    for s, e in zip(stmts[:4], expect):
+        if not _is(s, e, mode="exec"):
+            raise TranslationError(f"{_where(what, s)}: expected '{e.splitlines()[0]} ...', got '{_src(s).splitlines()[0]}'")
+
+    def atom(node):
+        if isinstance(node, ast.BoolOp):
+            op = "andb" if isinstance(node.op, ast.And) else "orb"
+            parts = [atom(v) for v in node.values]
+            out = parts[-1]
+            for p in reversed(parts[:-1]):
+                out = f"({op} {p} {out})"
+            return out
+        if isinstance(node, ast.UnaryOp) and isinstance(node.op, ast.Not):
+            return f"(negb {atom(node.operand)})"
+        if _is(node, f"isinstance({c}.option, Sequence)"):
+            return "is_sequence"
+        for o, sym in (("ADD", "has_add"), ("DIVIDE", "has_divide")):
+            if _is(node, f"t.Option.{o} in {c}.option"):
+                return sym
+            if _is(node, f"t.Option.{o} not in {c}.option"):
+                return f"(negb {sym})"
+        raise TranslationError(f"{_where(what, node)}: option test '{_src(node)}' is not of a known form")
+
+    def outcome(s):
+        for m, d in (("calculate", "DPlain"), ("calculate_add", "DAdd"), ("calculate_divide", "DDivide")):
+            if _is(s, f"return {me}.simulation.{m}({c}.variable, {c}.period)", mode="exec"):
+                return d
+        if _is(s, f"raise IncompatibleOptionsError({name})", mode="exec"):
+            return "DIncompatible"
+        if _is(s, f"raise InvalidOptionError({c}.option[0], {name})", mode="exec"):
+            return "DInvalid"
+        raise TranslationError(f"{_where(what, s)}: outcome '{_src(s).splitlines()[0]}' is not of a known form")
+
+    lines = []
+    rest = stmts[4:]
+    for k, s in enumerate(rest):
+        last = k == len(rest) - 1
+        if last:
+            lines.append(f"  {'else ' if lines else ''}{outcome(s)}.")
+        elif isinstance(s, ast.If) and not s.orelse and len(s.body) == 1:
+            lines.append(f"  {'else if' if lines else 'if'} {atom(s.test)} then {outcome(s.body[0])}")
+        else:
+            raise TranslationError(f"{_where(what, s)}: statement '{_src(s).splitlines()[0]}' is not "
+                                   f"'if <option test>: <return or raise>'")
+    return "\n".join([
+        "(* CorePopulation.__call__, after the checks of the variable and the period *)",
+        "Definition gen_option_dispatch (has_add has_divide is_sequence : bool) : dispatch :=",
+    ] + lines)
+
+
+GUARDS_HEADER = [
+    "(* GENERATED by harness/gen_tables.py from /repo sources - do not edit. *)",
+    "From Coq Require Import ZArith List Bool.",
+    "From Verif Require Import Base Tables.",
+    "Import ListNotations.",
+    "Open Scope Z_scope.",
+    "",
+    "(* the names the decisions below choose among *)",
+    "Inductive named_period := NThisYear | NFirstMonth | NFirstDay | NFirstWeek | NFirstWeekday.",
+    "Inductive size_fn := SInYears | SInMonths | SInDays | SInWeeks | SInWeekdays.",
+    "Inductive dispatch := DPlain | DAdd | DDivide | DIncompatible | DInvalid.",
+    "",
+]
+
+
+def render_guards():
+    parts = [guard_check_consistency(), guard_add(), guard_divide(), guard_dispatch()]
+    return "\n".join(GUARDS_HEADER) + "\n" + "\n\n".join(parts) + "\n"
+
+
+def render_guards_failure(err):
+    """A Guards.v that cannot be compiled: whatever is proved against the regenerated
+    guards is no longer shown to hold, and says why."""
+    msg = str(err).encode("ascii", "replace").decode().replace('"', "'").replace("\n", " ")
+    return "\n".join(GUARDS_HEADER + [
+        "(* TRANSLATION FAILED: the source no longer has a shape the translator recognises. *)",
+        "From Coq Require Import String.",
+        "Open Scope string_scope.",
+        f'Definition TRANSLATION_FAILED : False := "gen_tables: TRANSLATION FAILED: {msg}".',
+        "",
+    ])
+
+
 def render():
     w = unit_weights()
     isoformat = unit_tuple("isoformat")
@@ -138,9 +690,10 @@ def render():
     return "\n".join(lines)
 
 
-def main(out_path):
-    text = render()
-    p = pathlib.Path(out_path)
+LAST_GUARD_ERROR = None
+
+
+def _write(p, text):
     if not p.exists() or p.read_text() != text:
         p.parent.mkdir(parents=True, exist_ok=True)
         p.write_text(text)
@@ -148,10 +701,32 @@ def main(out_path):
     return False
 
 
+def main(out_path):
+    """Writes <out_path> (Tables.v) and Guards.v next to it.  A table that cannot be
+    translated raises TranslationError (nothing can be built).  A decision structure that
+    cannot be translated leaves a Guards.v that does not compile and carries the message:
+    every proof obligation stated against the regenerated guards fails, the rest of the
+    development (and the model side of the correspondence) still builds."""
+    global LAST_GUARD_ERROR
+    p = pathlib.Path(out_path)
+    changed = _write(p, render())
+    try:
+        text = render_guards()
+        LAST_GUARD_ERROR = None
+    except TranslationError as e:
+        text = render_guards_failure(e)
+        LAST_GUARD_ERROR = str(e)
+        print(f"gen_tables: TRANSLATION FAILED: {e}", file=sys.stderr)
+    changed = _write(p.parent / "Guards.v", text) or changed
+    return changed
+
+
 if __name__ == "__main__":
     try:
         changed = main(sys.argv[1] if len(sys.argv) > 1 else "/verif/coq/gen/Tables.v")
     except TranslationError as e:
         print(f"gen_tables: TRANSLATION FAILED: {e}", file=sys.stderr)
+        sys.exit(2)
+    if LAST_GUARD_ERROR is not None:
         sys.exit(2)
     print("gen_tables: " + ("rewritten" if changed else "unchanged"))
